@@ -56,12 +56,33 @@ def main(pid):
                 # same histogram / same code sum, different vectors
                 Y = np.array(rng.permutation(X), dtype=np.int32)
             yield Y, X * int(rng.integers(1, 4)) + int(rng.integers(0, 5))
+        if pid == 'C04':
+            # lengths at which ratio * n sits just below an integer for a float32 ratio (0.7 * 10, 0.9 * 10, 0.7 * 1000, ...)
+            for n in (10, 20, 30, 40, 100):
+                for k in (2, 3, 7):
+                    X = (np.arange(n) % k).astype(np.int32)
+                    yield rng.integers(0, 3, n).astype(np.int32), rng.permutation(X).astype(np.int32)
 
     def estimator_inputs(ratios, flags):
         for Y, X in pairs():
             for r in ratios:
                 for c in flags:
                     yield dict(Y=Y, X=X, approximation_factor=float(np.float32(r)), cardinality_correction=c)
+
+    def long_prefix_pairs():
+        # different vectors that agree on a long prefix / suffix / every other row (the self-pair test is element-wise on whole vectors)
+        n = 3000
+        X = rng.integers(0, 4, n).astype(np.int32)
+        for kind in ('prefix', 'suffix', 'all but one'):
+            Y = X.copy()
+            if kind == 'prefix':
+                Y[2500:] = (X[2500:] + 1) % 4
+            elif kind == 'suffix':
+                Y[:300] = (X[:300] + 1) % 4
+            else:
+                Y[1700] = (X[1700] + 1) % 4
+            for c_ in (True, False):
+                yield dict(Y=Y, X=X, approximation_factor=1.0, cardinality_correction=c_)
 
     def call_est(Y, X, approximation_factor, cardinality_correction):
         if approximation_factor < 1:
@@ -173,6 +194,19 @@ def main(pid):
         h.bounded_note('spec consistency: conditional-entropy form == double-sum plug-in MI; symmetry, bounds, '
                        'zero-when-constant, self=entropy on the real estimator (float32 rounding tolerance 1e-4)',
                        'all pairs of length <= %d over 3 codes + seeded pairs up to n=60' % (4 if quick else 5), n_ref)
+        # scale: heavily skewed marginals at n = 2*10^5 (many once-only classes next to a few dominant ones), both orientations
+        n = 200000
+        Yb = rng.integers(0, 3, n).astype(np.int32)
+        Yb[rng.choice(n, 2000, replace=False)] = np.arange(10, 2010, dtype=np.int32)
+        Xb = ((Yb % 3) + rng.integers(0, 2, n)).astype(np.int32)
+        for A, B, tag in ((Yb, Xb, 'rare classes in the first argument'), (Xb, Yb, 'rare classes in the second argument')):
+            real = float(R.mutual_info_estimator_numba(A, B, np.float32(1.0), False))
+            ref = M.plugin_mi_reference(A, B)
+            h.record(('skewed', tag), True)
+            if not approx(real, ref, 1e-3):
+                h.fail('mutual_info_estimator_numba.ensures.plugin_mi', {'n': n, 'shape': '3 dominant codes + 2000 codes that occur once', 'orientation': tag,
+                                                                         'seed': h.seed}, f'{real} vs plug-in MI {ref}')
+        h.bounded_note('plug-in MI at n = 2*10^5 with 2000 once-only classes (float32 tolerance 1e-3)', 'one seeded input, both orientations', 2)
         if not quick:
             n = 10 ** 6
             Y = rng.integers(0, 1000, n).astype(np.int32)
@@ -211,6 +245,7 @@ def main(pid):
                     for c_ in (False, True):
                         yield dict(Y=Y, X=X, approximation_factor=float(np.float32(r)), cardinality_correction=c_)
         check_estimator(None, None, {'selfpair', 'sampled'}, classify=cls, inputs=almost_self_pairs())
+        check_estimator(None, None, {'selfpair', 'corrected', 'plugin_mi'}, classify=cls, inputs=long_prefix_pairs())
         # relabeling invariance on the real estimator (bounded stand-in for the spec-level lemma)
         n_rel = 0
         for Y, X in pairs():
@@ -236,6 +271,9 @@ def main(pid):
 
     if pid == 'C03':
         check_estimator([1.0], [True], {'selfpair', 'corrected', 'y_support', 'x_support'})
+        check_estimator(None, None, {'selfpair', 'corrected'}, inputs=long_prefix_pairs())
+        # the corrected statistic on a sub-sample (ratio < 1): same identity, on the sampled rows
+        check_estimator([0.5, 0.8], [True], {'sampled'})
         n_cor = 0
         for Y, X in pairs():
             s = float(R.mutual_info_estimator_numba(Y, X, np.float32(1.0), True))
@@ -270,7 +308,7 @@ def main(pid):
         def sub_inputs():
             for Y, X in pairs():
                 fv, _ = M.support(X)
-                for r in (0.3, 0.5, 0.8, 0.99):
+                for r in (0.3, 0.5, 0.7, 0.8, 0.9, 0.99):
                     yield dict(Y=Y, X=X, approximation_factor=float(np.float32(r)), _f_values_X=fv)
 
         def call_sub(Y, X, approximation_factor, _f_values_X):
@@ -295,7 +333,25 @@ def main(pid):
                 if not ok:
                     h.fail(f'stratified_subsampling.ensures.{label}', inp, f'clause false: {e}; result={res}',
                            obligations=[f'ranking_mi_numba.stratified_subsampling/ensures.{label}'])
-        check_estimator([0.3, 0.5, 0.8], [False, True], {'sampled', 'x_support', 'y_support'})
+        check_estimator([0.3, 0.5, 0.7, 0.8, 0.9], [False, True], {'sampled', 'x_support', 'y_support'})
+        # the ratio reaches the estimator through the ranking entry point for every MI-numba heuristic
+        import outrank.algorithms.importance_estimator as IE
+        from types import SimpleNamespace
+        n_disp = 0
+        for Y, X in itertools.islice(pairs(), 400, 460):
+            if len(X) < 6:
+                continue
+            for name, corr in (('MI-numba-randomized', True), ('MI-numba-3mr', False)):
+                for r in (0.5, 0.8):
+                    args_ = SimpleNamespace(heuristic=name, mi_stratified_sampling_ratio=r)
+                    got = float(IE.conduct_feature_ranking(Y.copy(), X.copy(), args_))
+                    want = float(R.mutual_info_estimator_numba(Y.copy(), X.copy(), np.float32(r), corr))
+                    n_disp += 1
+                    h.record(('dispatch_ratio', name, r, common._key({'Y': Y, 'X': X})), True)
+                    if not approx(got, want, 1e-6):
+                        h.fail('conduct_feature_ranking.passes_the_sampling_ratio', {'Y': Y, 'X': X, 'heuristic': name, 'ratio': r},
+                               f'{got} through the ranking entry point, {want} from the estimator with this ratio')
+        h.bounded_note('the sampling ratio is forwarded by conduct_feature_ranking / numba_mi for both MI-numba heuristics', '60 pairs x 2 ratios', n_disp)
         # sample-only: altering feature values outside the sampled rows does not change the score
         n_so = 0
         for Y, X in pairs():
